@@ -34,7 +34,7 @@ type caseC13 struct {
 	Query  queryC13
 }
 
-var c13TagPool = []string{"tag", "#tag", "Tag", "work", "#work", "home-office", "a_b", "読む", "ü", "tag=v", "tag=V", "#tag=1-2", "tag=\"a b\"", "tag='a b'", "ticket=891", "p=x", "nomatch", "work=1"}
+var c13TagPool = []string{"tag", "#tag", "Tag", "work", "#work", "home-office", "a_b", "読む", "ü", "tag=v", "tag=V", "#tag=1-2", "tag=\"a b\"", "tag='a b'", "ticket=891", "p=x", "nomatch", "work=1", "call=Liz", "call=\"'Liz'\"", "call='\"Liz\"'", "tag='say \"hi\"'", "tag=\"it's\"", "size='5\"'", "who", "Straße", "STRASSE", "ǆ"}
 var c13Shortcuts = []string{"today", "yesterday", "tomorrow", "this-week", "last-week", "this-month", "last-month", "this-quarter", "last-quarter", "this-year", "last-year"}
 
 func genC13(t *rapid.T, _ *evid.Rec) caseC13 {
